@@ -280,7 +280,20 @@ func descField(v reflect.Value) string {
 
 var specials = []string{"", " ", "&", "=", ";", "%", "+", "a b", "a&b=c", "%41", "%zz", "100%", "x;y", "a+b", "/?#[]@!$'()*,:", "~-_.", "\x00", "\xff\xfe", "é世界", "true", "0", "-1", "007"}
 
+var spaces = []string{" ", "\t", "\n", "\r", "\v", "\f", "\u0085", "\u00a0", "\u2003", "\r\n", "  "}
+
 func genString(r *rand.Rand) string {
+	if r.Intn(8) == 0 {
+		// leading / trailing white space must survive every codec
+		core := genString(r)
+		if r.Intn(2) == 0 {
+			core = spaces[r.Intn(len(spaces))] + core
+		}
+		if r.Intn(2) == 0 {
+			core += spaces[r.Intn(len(spaces))]
+		}
+		return core
+	}
 	switch r.Intn(9) {
 	case 0:
 		return ""
